@@ -12,7 +12,6 @@ from primaite import getLogger
 from primaite.simulator.core import RequestManager, RequestType, SimComponent
 from primaite.simulator.network.airspace import AirSpace
 from primaite.simulator.network.hardware.base import Link, Node, WiredNetworkInterface
-from primaite.simulator.network.hardware.node_operating_state import NodeOperatingState
 from primaite.simulator.network.hardware.nodes.host.host_node import HostNode
 from primaite.simulator.network.hardware.nodes.host.server import Printer
 from primaite.simulator.network.hardware.nodes.network.network_node import NetworkNode
@@ -59,8 +58,8 @@ class Network(SimComponent):
             link.setup_for_episode(episode=episode)
 
         for node in self.nodes.values():
-            if node.operating_state != NodeOperatingState.ON:
-                # (the game has just been built from the scenario: a node that is not on was declared so)
+            if str(getattr(node.config, "operating_state", None) or "ON").upper() == "OFF":
+                # (the initial state the scenario declares for this node is OFF)
                 continue
             node.power_on()
 
